@@ -465,3 +465,7 @@ pub trait ClientSocket {
     /// Send a packet on the event socket, waiting for a timestamp.
     fn send_event(&mut self, buf: &[u8]) -> impl Future<Output = Result<Timestamp, Self::Error>>;
 }
+
+#[cfg(feature = "pendulum_project_ntpd_rs_verif")]
+#[path = "/verif/hooks/statime-csptp/source.rs"]
+pub mod vh_source;
